@@ -104,9 +104,42 @@ PROPS = {
         technique="Coq proof (simulation of two writer runs; structural invariant of the generated printer) + model/implementation correspondence",
         suites=[dict(suite="print", n_quick=2000, n_thorough=50000, what="trees x compiler configurations: code",
                      projection=[(r" v=\d+ names=.*$", ""), (r" nomap$", "")])],
-        oracle=False,
+        oracle_n_quick=600, oracle_n_thorough=20000,
         explanation="C06 (layout clauses): C06_semi_only, C06_indent_only.",
         open_statements=["C06_same_tree (pretty output re-parses to the compact tree)", "C06_idempotent"],
+    ),
+    "C16": dict(
+        design_ref="DESIGN.md 5.16",
+        level_text="Coq theorems over the executable parser model, for all inputs (valid or malformed), modes, interceptors and operators: every statement and expression parse step leaves the context stack exactly as it found it, and after ParseProgram the stack is [Global] (CurrentContext = Global, IsInFunction = false). The per-token nesting clause is explored by the oracle with probe interceptors against the reference unparser's nesting; the recorded finding KF8 (function bodies answer Block) is reported there.",
+        level_note="Trusted: Coq kernel, translator xjs2v (context constants, tables), extraction, harness/driver correspondence (icept suite compares the probes' CurrentContext/IsInFunction log and the final context). Modelled not verified: parser control flow incl. the deferred pops.",
+        technique="Coq proof (balance invariant by induction on fuel) + model/implementation correspondence",
+        suites=[dict(suite="icept", n_quick=3000, n_thorough=100000, what="sources x interceptor lists: tree, errors, final context, probe log (token, CurrentContext, IsInFunction)")],
+        oracle=False,
+        explanation="C16: C16_balanced_stmt, C16_balanced_expr, C16_final_top.",
+        open_statements=["C16_reflects_nesting (probe answers equal the syntactic nesting per token): explored by the oracle; false on the unchanged tree for function bodies (KF8)"],
+    ),
+    "C04": dict(
+        design_ref="DESIGN.md 5.4",
+        level_text="Coq theorems over the executable parser model for all token lists and configurations: any list of pass-through, probing and re-entrant (prefix + remaining) statement/expression interceptors yields the same tree, errors, error flag, final context and token window as no interceptors; non-rewriting token interceptors leave tokens unchanged; one statement step runs the probes in installation order on the first token of the construct and then the base parser; every expression step restores the binding-power register; the token chain is entered with the lexer on the lexeme's first byte.",
+        level_note="Trusted: Coq kernel, translator xjs2v, extraction, harness/driver correspondence (icept suite installs real closures of the three modelled kinds in random interleavings). The theorems quantify over the modelled interceptor shapes (pass-through, probe, re-entrant), not over arbitrary Go closures.",
+        technique="Coq proof (simulation of interceptor chains by induction on fuel) + model/implementation correspondence",
+        suites=[dict(suite="icept", n_quick=3000, n_thorough=100000, what="sources x interceptor lists (0..4 per kind): tree, errors, final context, probe log"),
+                dict(suite="lex", n_quick=1500, n_thorough=50000, what="token stream")],
+        oracle=False,
+        explanation="C04: C04_transparent, C04_tokens_transparent, C04_order_stmt, C04_cep_restored, C04_token_position.",
+    ),
+    "C07": dict(
+        design_ref="DESIGN.md 5.7",
+        level_text="Coq theorems against a specification of ECMAScript string values (StringValue.v: SV over UTF-8 source bytes to UTF-16 code units, strict UTF-8 decoding): every valid string literal body in either quote style scans to a literal that denotes the same value between double quotes; the UTF-8 encoder regenerated from lexer/helpers.go is correct on every Unicode scalar value; backtick bodies are reproduced byte for byte by scan + print; string and number literal nodes are printed from their scanned literal verbatim. Pretty-mode trimming inside backtick literals is the recorded finding KF3.",
+        level_note="Trusted: Coq kernel, translator xjs2v (isHexDigit, hexDigitValue, encodeUTF8, mustStayEscaped, WriteTo bodies), extraction, harness/driver correspondence (lex suite with the escape corpus; print suite), the SV specification. Modelled not verified: readString/readRawString control flow. Values are compared by a JavaScript engine only in the search oracle.",
+        technique="Coq proof (induction over literal bodies against an ECMAScript string-value specification) + model/implementation correspondence",
+        suites=[dict(suite="lex", n_quick=4000, n_thorough=200000, what="byte strings incl. every escape shape: all token fields"),
+                dict(suite="print", n_quick=1000, n_thorough=50000, what="trees x configurations: code",
+                     projection=[(r" v=\d+ names=.*$", ""), (r" nomap$", "")])],
+        oracle=False,
+        explanation="C07: C07_string, C07_string_printed, C07_backtick, C07_utf8, C07_number_printed.",
+        assumptions=["legacy octal escapes and other escapes that are syntax errors in strict mode are outside the subset (SV = None)",
+                     "source text is well-formed UTF-8"],
     ),
 }
 
